@@ -23,6 +23,14 @@ def ty_head_of(t):
     return mirq.ty_head(t)
 
 
+def short_via(v):
+    """a body id without module paths but still naming the implementing type:
+    `<resources::TextResource as annotation::_::_serde::Serialize>::serialize` -> `<TextResource as Serialize>::serialize`"""
+    if "<" in v:
+        return re.sub(r"^\w+::(?=<impl)", "", re.sub(r"(?<![\w:])(?:\w+::)+(?=\w+(?:[ ,<>]|$))", "", v)) if v.startswith("<") or "<impl" in v else "::".join(re.sub(r"::<[^>]*>", "", v).split("::")[-2:])
+    return "::".join(v.split("::")[-2:])
+
+
 def run(ctx):
     lock_rule(ctx)
     prog = mirq.Program(ctx.facts.mir())
@@ -96,10 +104,15 @@ def run(ctx):
         n_entries += 1
         ctx.functions_analysed.add(bid)
         for s in sorted(reach_site.get(bid, ())):
-            key = "%s|%s" % (bid, s)
-            r_write.hit(key, sample={"entry": bid, "write_site": s})
-            ctx.report(r_write, key, "shared-reference entry point %s can reach %s, which writes interior-mutable state (%s): concurrent readers can observe each other" % (
-                bid, s, ", ".join(sorted(set(x[0] for x in sites[s])))), b.file, b.line, {"entry": bid, "site": s})
+            # one finding per route out of the entry point: a new way from a listed entry to a listed writer is a new finding
+            vias = sorted(c for c in edges.get(bid, ()) if c == s or s in reach_site.get(c, ()))
+            if bid == s:
+                vias = ["(itself)"] + [v for v in vias if v != s]
+            for via in vias:
+                key = "%s|%s|via:%s" % (bid, s, short_via(via))
+                r_write.hit(key, sample={"entry": bid, "write_site": s, "via": via})
+                ctx.report(r_write, key, "shared-reference entry point %s can reach %s (through its call to %s), which writes interior-mutable state (%s): concurrent readers can observe each other" % (
+                    bid, s, via, ", ".join(sorted(set(x[0] for x in sites[s])))), b.file, b.line, {"entry": bid, "site": s, "via": via})
     r_write.notes.append("public shared-reference entry points analysed: %d; write-site functions: %s" % (n_entries, sorted(sites)))
     r_write.instances += n_entries
     ctx.floor(r_write, n_entries, 400, "public shared-reference entry points")
